@@ -102,6 +102,9 @@ class BaseElementLocator
                        {
                            return address - diff;
                        });
+        // the slot after the last moved element is where resize() takes the new end of data from
+        element_addresses_[to + (element_addresses_.size() - from)] =
+            static_cast<std::size_t>(last_element_ - memory_begin) - diff;
     }
 
     void make_room_for_last_element_at(std::size_t index, std::size_t size_of_element, std::byte* memory_begin) noexcept
